@@ -243,15 +243,17 @@ inductive Outcome where
   deriving Repr, DecidableEq
 
 /-- Executable form of the property on the implementation's own outcome:
-`clob` = some bound output register is hardware BP. -/
-def acceptBP (attrs : Nat) (ls : Int) (hasCall clob : Bool) (o : Outcome) : Bool :=
+`clob` = some bound output register is hardware BP.  Only what the property
+demands is judged: how large the frame of a clobbering function is beyond "> 0",
+and anything about functions that leave BP alone, is the exact comparison's
+business (the unused `_ls` is the local size before the pass). -/
+def acceptBP (attrs : Nat) (_ls : Int) (hasCall clob : Bool) (o : Outcome) : Bool :=
   if !clob then true
   else match o with
     | .err => attrNoFrame attrs
     | .ok ls' => !attrNoFrame attrs && decide (ls' > 0) &&
         asmSavesBP ls' (attrNoFrame attrs) (attrNoSplit attrs) hasCall &&
-        asmSavesBPQuoted ls' (attrNoFrame attrs) (attrNoSplit attrs) hasCall &&
-        (ls' == ls || ls == 0)
+        asmSavesBPQuoted ls' (attrNoFrame attrs) (attrNoSplit attrs) hasCall
 
 /-- Soundness: an accepted outcome of a clobbering function is either a refusal
 of a NOFRAME function or a function that both assembler rules save. -/
@@ -267,7 +269,7 @@ theorem acceptBP_sound (attrs : Nat) (ls : Int) (hc : Bool) (o : Outcome)
   | ok ls' =>
     simp only [acceptBP, Bool.not_true, Bool.false_eq_true, if_false, Bool.and_eq_true,
       Bool.not_eq_true', decide_eq_true_eq] at h
-    exact ⟨h.1.1.1.1, h.1.1.1.2, h.1.1.2, h.1.2⟩
+    exact ⟨h.1.1.1, h.1.1.2, h.1.2, h.2⟩
 
 /-- Completeness: the model's own outcome is accepted (local size ≥ 0). -/
 theorem acceptBP_complete (attrs : Nat) (ls : Int) (hc clob : Bool) (h0 : 0 ≤ ls) :
@@ -283,14 +285,9 @@ theorem acceptBP_complete (attrs : Nat) (ls : Int) (hc clob : Bool) (h0 : 0 ≤ 
     | ok l =>
       obtain ⟨hnf, hpos, hs⟩ := bp_saved _ _ _ h0 he
       have := hs (attrNoSplit attrs) hc
-      have hfr := ensureBP_frame _ _ _ _ he
-      have h3 : (l == ls || ls == 0) = true := by
-        rcases hfr with h | h
-        · simp [h]
-        · simp [h.1]
       simp only [acceptBP, Bool.not_true, Bool.false_eq_true, if_false]
       simp only [hnf] at this
-      simp [hnf, hpos, this.1, this.2, h3]
+      simp [hnf, hpos, this.1, this.2]
 
 example : acceptBP 4 0 false true (.ok 8) = true := by decide
 example : acceptBP 4 0 false true (.ok 0) = false := by decide
